@@ -19,6 +19,14 @@ def strip_vendor(p):
     return p if len(parts) == 1 else "/".join(x for x in parts[1:] if x).lstrip("/")
 
 
+def src_specs(inp):
+    """import specs (path, name) of the source package, from the dumped model input"""
+    m = re.match(r'\(mkInput \(mkPkg "[^"]*" "[^"]*"\) \[((?:\("[^"]*", "[^"]*"\)(?:; )?)*)\]', inp)
+    if not m:
+        return []
+    return re.findall(r'\("([^"]*)", "([^"]*)"\)', m.group(1))
+
+
 REPO_CORPUS = os.path.join(C.REPO, "pkg", "moq", "testpackages")
 
 
@@ -117,7 +125,8 @@ def run(tools, seed, tier):
                 c = byid[o["id"]]
                 fx = facts.get(o["id"]) or {}
                 v = verdicts.get(o["id"])
-                verdict, fams = (v.split("|", 1) + [""])[:2] if v else (None, "")
+                vparts = (v.split("|", 2) + ["", ""])[:3] if v else (None, "", "")
+                verdict, fams, mproj = vparts
                 src = {}
                 if c["dir"].startswith(root):
                     for fn in sorted(os.listdir(c["dir"])):
@@ -128,11 +137,14 @@ def run(tools, seed, tier):
                 mi = re.match(r'\(mkInput \(mkPkg "([^"]*)" "([^"]*)"\)', inp)
                 res["cases"].append(dict(
                     case=c, kind=o["kind"], text=o["text"], ms=o.get("ms"),
-                    repeats=o.get("repeats", 0), nondet=o.get("nondet"), fmt=o.get("fmt"),
+                    repeats=o.get("repeats", 0), nondet=o.get("nondet"), fmt=o.get("fmt"), sigs=o.get("sigs"),
                     src_pkg=dict(path=mi.group(1), name=mi.group(2)) if mi else {},
+                    src_specs=src_specs(inp),
                     pkg_names={strip_vendor(a): b for a, b in pk},
                     skipped=skipped.get(o["id"]), verdict=verdict,
                     families=[x for x in fams.split(",") if x],
+                    model_proj=mproj or None,
+                    observed_proj=l2.projection(fx) if (verdict or "").startswith("DIFF") else None,
                     canon=canon.get(o["id"]),
                     facts={k: fx.get(k) for k in ("parse_error", "first_line", "pkg_name", "imports", "mocks",
                                                   "top_decls", "type_errors", "typecheck")},
